@@ -112,7 +112,7 @@ class Prop(BaseProp):
         headers = list(rng.choice(HEADERS))
         prefix_src = rng.choice(["none", "none", "cli", "config"])
         prefix = None if prefix_src == "none" else rng.choice(["Pfx", "my.pkg", "A B", "p-1", "Prä✓", "日本", "", "Ends" + sep, sep + "starts",
-                                                               "Twice" + sep + sep])
+                                                               "Twice" + sep + sep, "v2*", "a|b", "back\\slash", "site.cmake.lib"])
         single = idx % 3 == 0
         res.sig = sig_hash([single, sep, ext_t, ext_m, len(headers), prefix_src, prefix])
         res.see("separators", sep)
@@ -131,7 +131,10 @@ class Prop(BaseProp):
             if single:
                 d = os.path.join(sb, "w", rng.choice(["", "deep/er"]))
                 os.makedirs(d, exist_ok=True)
-                fname = rng.choice(["single.cmake", "a.b.cmake", "find-foo.cmake", "x.cmake.y.cmake", "ünï.cmake"])
+                # (a lone input file need not be called *.cmake: CMakeLists.txt, a module without extension; names that contain reST
+                #  inline markup characters)
+                fname = rng.choice(["single.cmake", "a.b.cmake", "find-foo.cmake", "x.cmake.y.cmake", "ünï.cmake", "CMakeLists.txt", "BuildHelpers",
+                                    "Find.Foo", "glob*match.cmake", "pipe|name.cmake", "tick`s.cmake"])
                 path = os.path.join(d, fname)
                 text, mdoc = self.module_text(rng, fname, res)
                 with open(path, "w") as f:
